@@ -494,3 +494,81 @@ Definition hdr_consistent (b : bytes) : Prop :=
   end.
 
 Definition ts_ok (T : Z) (v : Z * Z * bytes) : bool := snd (fst v) <=? T.
+
+(* ----------------------------------------------- fault-free restore specification *)
+(* What a successful restore must leave in S3, written without worlds, faults or
+   rollback: used to state completeness and order of the copy (C08_prefix). *)
+Section Spec.
+Variable crc : bytes -> Z.
+
+(* ---------- the specification: what the copy of one partition must write ---------- *)
+Fixpoint plan_list (s : store) (p : Z) (segs : list srcseg) (i lc : nat) (T : Z) : list artifact :=
+  match segs with
+  | [] => []
+  | g :: segs' =>
+      if (lc <? i)%nat then []
+      else match s_get s (seg_key 0 p (g_base g)), s_get s (idx_key 0 p (g_base g)) with
+           | Some sb, Some ib =>
+               match (if (i =? lc)%nat then build_plan crc sb ib T (g_created g)
+                      else Ok (Some (mkArt sb ib (g_base g) (g_last g)))) with
+               | Ok (Some a) => a :: plan_list s p segs' (S i) lc T
+               | _ => []
+               end
+           | _, _ => []
+           end
+  end.
+
+Definition put_art (p : Z) (s : store) (a : artifact) : store :=
+  s_put (s_put s (seg_key 1 p (a_base a)) (a_seg a)) (idx_key 1 p (a_base a)) (a_idx a).
+Definition puts_of (p : Z) (arts : list artifact) (s : store) : store := fold_left (put_art p) arts s.
+
+Definition part_spec (s0 : store) (all : list srcseg) (T : Z) (cur : store) (p : Z) : store :=
+  let segs := sort_segs (filter (fun g => g_part g =? p) all) in
+  puts_of p (plan_list s0 p segs 0 (last_candidate segs T 0) T) cur.
+
+(* fault-free inspection of the listed source objects *)
+Definition get_range (v : bytes) (st en : Z) : option bytes :=
+  let st' := if st <? 0 then 0 else st in
+  let en' := if zlen v <=? en then zlen v - 1 else en in
+  if (en' <? st') || (zlen v <=? st') then None
+  else Some (firstn (Z.to_nat (en' - st' + 1)) (skipn (Z.to_nat st') v)).
+
+Definition inspect_pure (s : store) (k : key) (size : Z) : option srcseg :=
+  if size <? 16 then None
+  else match s_get s k with
+       | None => None
+       | Some v =>
+           match get_range v 0 31, get_range v (size - 16) (size - 1) with
+           | Some hb, Some fb =>
+               if (zlen hb <? 32) || negb (bytes_eqb (firstn 4 hb) magic_kafs) ||
+                  (zlen fb <? 16) || negb (bytes_eqb (slice 12 4 fb) magic_end) then None
+               else Some (mkSeg (k_part k) (k_base k) (i64 (slice 4 8 fb)) (i64 (slice 20 8 hb)))
+           | _, _ => None
+           end
+       end.
+
+Fixpoint inspect_all_pure (s : store) (objs : list (key * Z)) : option (list srcseg) :=
+  match objs with
+  | [] => Some []
+  | (k, size) :: objs' =>
+      if k_idx k then inspect_all_pure s objs'
+      else match inspect_pure s k size, inspect_all_pure s objs' with
+           | Some g, Some gs => Some (g :: gs)
+           | _, _ => None
+           end
+  end.
+
+Definition list_pure (s : store) (space : Z) : list (key * Z) :=
+  map (fun kv => (fst kv, zlen (snd kv))) (filter (fun kv => k_space (fst kv) =? space) s).
+
+(* the whole restore without faults: the store it must leave *)
+Definition restore_spec (s0 : store) (T : Z) (parts : list Z) : option store :=
+  if existsb (fun o => negb (k_idx (fst o))) (list_pure s0 1) then None
+  else match inspect_all_pure s0 (list_pure s0 0) with
+       | None => None
+       | Some all =>
+           let sel := filter (fun g => match parts with [] => true | _ => existsb (Z.eqb (g_part g)) parts end) all in
+           Some (fold_left (part_spec s0 sel T) (sort_parts (map g_part sel)) s0)
+       end.
+
+End Spec.
